@@ -119,7 +119,7 @@ def main(tier):
             confirmed = True  # decided by the two models; the probe tells which side the implementation is on
         elif kind == "bad_byte_in_match":
             bad = set()
-            for s in p["nonmatching"] + ([15] if r["o"]["nul"] else [14]):
+            for s in p["nonmatching"] + ([15] if r["o"]["nul"] else [13, 14] if r["o"]["crlf"] else [14]):
                 bad.update(rr.SYM[s])
             for line, pr in zip(confirm_jobs[keys.index((pid, kind, x))]["probe"], probes):
                 f = pr.get("find")
